@@ -1,6 +1,9 @@
 // C18 (map load modes) — model of the documented MapLoadMode semantics over generated key sets:
 // Clean = exactly the document; OnlyExistKeys never adds a key; UpdateKeys never removes one; values of common keys come from the document.
 #include "common/models.h"
+#include "common/dyn.h"
+#include <set>
+#include <optional>
 
 using namespace arch;
 using namespace mdl;
@@ -85,6 +88,33 @@ template <class A, class C> void run_long_seq(vf::Ctx& c, int archId, const char
 	if (got != data) c.fail("loading into a populated target gives a different value than the saved one", d);
 }
 }
+// values that cannot be loaded (null into a non-nullable mapped type, a mismatching value under the Skip policy): the documented invariants of
+// the load modes must still hold - UpdateKeys never removes a key, OnlyExistKeys never adds one - and loadable entries behave as usual
+namespace {
+template <class A> void run_unloadable(vf::Ctx& c, int archId) {
+	using M = std::map<std::string, int>; const bool viaNull = c.src.coin();
+	std::map<std::string, std::optional<int>> docN; std::map<std::string, std::string> docS; M prior; std::set<std::string> bad;
+	for (size_t n = 1 + c.src.draw(5), i = 0; i < n; i++) { const std::string k = "k" + std::to_string(c.src.draw(8)); const bool unloadable = c.src.chance(1, 2); const int v = static_cast<int>(c.src.draw(1000)); if (unloadable) bad.insert(k); else bad.erase(k); docN[k] = unloadable ? std::nullopt : std::optional<int>(v); docS[k] = unloadable ? "text" : std::to_string(v); }
+	for (size_t n = c.src.draw(6), i = 0; i < n; i++) prior["k" + std::to_string(c.src.draw(8))] = -1 - static_cast<int>(c.src.draw(100));
+	const MapLoadMode mode = static_cast<MapLoadMode>(c.src.draw(3)); Cfg cfg; cfg.stream = c.src.coin(); cfg.opt.mismatchedTypesPolicy = MismatchedTypesPolicy::Skip;
+	// the document is built as a dynamic tree: {before:7, m:{key: int | null | string}, after:9}
+	std::vector<std::pair<refmp::Val, refmp::Val>> mm; for (auto& kv : docS) mm.push_back({ refmp::mkStr(kv.first), bad.count(kv.first) ? (viaNull ? refmp::mkNil() : refmp::mkStr("text")) : refmp::mkInt(std::stoi(kv.second)) });
+	std::string bytes; Cfg mem; Outcome so = dyn::save<A>(refmp::mkMap({ { refmp::mkStr("before"), refmp::mkInt(7) }, { refmp::mkStr("m"), refmp::mkMap(mm) }, { refmp::mkStr("after"), refmp::mkInt(9) } }), bytes, mem);
+	if (!so.ok()) c.fail("saving a map failed", so.str());
+	bool priorHitsBad = false; for (auto& kv : prior) if (bad.count(kv.first)) priorHitsBad = true; c.nontrivial = priorHitsBad && mode != MapLoadMode::Clean; c.label(vf::cat("mode=", static_cast<int>(mode))); c.describe(vf::cat(arch_name(archId), " unloadable ", viaNull ? "null" : "mismatch", " mode=", static_cast<int>(mode), " doc keys=", docN.size(), " bad=", bad.size(), " prior=", mdl::show(prior), " stream=", cfg.stream));
+	ModeHolder<M> dst; dst.before = dst.after = 0; static_cast<M&>(dst.m) = prior; dst.m.mode = mode; Outcome lo = load<A>(dst, bytes, cfg);
+	std::string docShow; for (auto& kv : docS) docShow += kv.first + "=" + (bad.count(kv.first) ? "<unloadable>" : kv.second) + " ";
+	const std::string d = vf::cat(arch_name(archId), viaNull ? " null" : " mismatch+Skip", " mode=", static_cast<int>(mode), " doc{", docShow, "} prior=", mdl::show(prior), " => ", lo.str(), " result=", mdl::show(static_cast<M&>(dst.m)), " stream=", cfg.stream);
+	if (!lo.ok()) c.fail("loading a map whose unloadable values are skippable failed", d);
+	if (dst.before != 7 || dst.after != 9) c.fail("members around the map were not loaded", d);
+	const M& got = dst.m;
+	if (mode == MapLoadMode::UpdateKeys) for (auto& kv : prior) { auto it = got.find(kv.first); if (it == got.end()) c.fail("MapLoadMode::UpdateKeys removed a key", vf::cat("key ", kv.first, " | ", d)); else if (!docS.count(kv.first) && it->second != kv.second) c.fail("MapLoadMode::UpdateKeys changed a value the document does not mention", d); }
+	if (mode == MapLoadMode::OnlyExistKeys) { for (auto& kv : got) if (!prior.count(kv.first)) c.fail("MapLoadMode::OnlyExistKeys added a key", vf::cat("key ", kv.first, " | ", d)); if (got.size() != prior.size()) c.fail("MapLoadMode::OnlyExistKeys changed the key set", d); }
+	for (auto& kv : docS) if (!bad.count(kv.first)) { const bool expectPresent = mode != MapLoadMode::OnlyExistKeys || prior.count(kv.first); auto it = got.find(kv.first); if (expectPresent && (it == got.end() || it->second != std::stoi(kv.second))) c.fail("a loadable entry next to an unloadable one is lost or wrong", vf::cat("key ", kv.first, " | ", d)); }
+	if (mode == MapLoadMode::Clean) for (auto& kv : got) if (!docS.count(kv.first)) c.fail("MapLoadMode::Clean kept a key that is not in the document", vf::cat("key ", kv.first, " | ", d));
+}
+}
+VF_PROPERTY(map_modes_unloadable_values, 2, "maps whose document holds values that cannot be loaded (null into int; a string under the Skip policy) next to loadable ones, prior targets with overlapping keys, all three load modes, MessagePack and JSON, memory and streams: UpdateKeys never removes or alters an unmentioned key, OnlyExistKeys never adds one, Clean keeps no foreign key, loadable entries arrive; non-trivial = an unloadable value hits an existing key under a non-default mode") { if (c.src.coin()) run_unloadable<MsgPackArchive>(c, MSGPACK); else run_unloadable<JsonArchive>(c, JSON); }
 VF_PROPERTY(reload_csv_sequences, 3, "CSV (the archive that cannot announce a row count): 1..8 rows loaded into a vector / deque / list / forward_list already holding 0..8 other rows: the result is exactly the saved rows in order; memory and stream; non-trivial = prior length >= 2 and different from the data length") {
 	switch (c.src.draw(4)) { case 0: run_csv_seq<std::vector<SeqRow>>(c, "vector"); break; case 1: run_csv_seq<std::deque<SeqRow>>(c, "deque"); break; case 2: run_csv_seq<std::list<SeqRow>>(c, "list"); break; default: run_csv_seq<std::forward_list<SeqRow>>(c, "forward_list"); }
 }
